@@ -164,9 +164,9 @@ var (
 	sN = &sch{k: 'b', nilOK: true}
 )
 
-func sL(e *sch) *sch                      { return &sch{k: 'l', elem: e} }
-func sS(owner string, f ...*sch) *sch     { return &sch{k: 's', owner: owner, fields: f} }
-func sOwned(owner string, s *sch) *sch    { c := *s; c.owner = owner; return &c }
+func sL(e *sch) *sch                   { return &sch{k: 'l', elem: e} }
+func sS(owner string, f ...*sch) *sch  { return &sch{k: 's', owner: owner, fields: f} }
+func sOwned(owner string, s *sch) *sch { c := *s; c.owner = owner; return &c }
 
 var (
 	schHeader  = sS("Header", sB, sB, sB, sB, sB, sI, sI, sI, sI, sB, sB, sB)
